@@ -12,6 +12,8 @@ from engine.twins import TwinSpec, project, first_difference, count_events
 from engine.util import own_nodes, calls_with_nodes, where, optional_numeric_params, truthiness_uses
 
 RULES = {
+    "R-18.13": "set-up time is charged to the caller's budget: in dns.query / dns.asyncquery, once a function has turned its timeout into a deadline (`_compute_times(timeout)`), a later call that hands `timeout` on to another transport function of these modules is preceded on every path by `timeout = _timeout(expiration)` (the time left), not the caller's original figure - else a reply that arrives after the deadline (slow connect or TLS handshake) is returned instead of raising Timeout",
+    "R-18.12": "options reach the transport they were given for: inside dns.query / dns.asyncquery a local named like a parameter of the called transport function (timeout, port, source, one_rr_per_rrset, ignore_trailing, ...) is passed positionally only at that parameter's position - two swapped booleans make a reply with trailing octets accepted although ignore_trailing is False",
     "R-18.11": "connecting is part of the exchange and is bounded like it: every backend.make_socket(..., SOCK_STREAM, ...) of dns.asyncquery passes a timeout (6th argument) - without it the asynchronous connect to a server that black-holes TCP never ends, while the synchronous twin gives up at the deadline",
     "R-18.10": "adopted from C07: a reply is matched to its query by comparing question RRsets, i.e. Rdataset/RRset.__eq__ - name, class, type (R-07.11)",
     "R-18.9": "a transfer message is read under the EARLIER of its per-message deadline and the transfer's lifetime: in both _inbound_xfr twins the clamp replaces mexpiration by expiration exactly when mexpiration is None or later than expiration",
@@ -424,12 +426,52 @@ def run(model, rep, tier):
                       f"`{src(c11)[:80]}` passes no timeout: the connect waits for ever on a server that drops TCP SYNs - the exchange outlives its timeout and a resolution its lifetime (no failover, no LifetimeTimeout)",
                       stmt="connect-timeout")
     rep.floor("R-18.11", n11, 3)
+    from rules.common import name_slot_agreement
+    name_slot_agreement(model, rep, "R-18.12",
+                        lambda f, nm, cands: (cands if f.module.name in ("dns.query", "dns.asyncquery") and cands and all(g.module.name in ("dns.query", "dns.asyncquery") for g in cands) else None),
+                        80, "the callee applies the option of one name to the other (e.g. one_rr_per_rrset and ignore_trailing swapped: trailing octets are accepted or refused against the caller's wish)")
+    # ---------------------------------------------------------------- R-18.13
+    n13 = 0
+    tnames13 = {g.node.name for g in model.all_functions() if g.module.name in ("dns.query", "dns.asyncquery") and "timeout" in g.params()}
+    for f13 in sorted(model.all_functions(), key=lambda g: g.qualname):
+        if f13.module.name not in ("dns.query", "dns.asyncquery") or "timeout" not in f13.params():
+            continue
+        cfg13 = CFG(f13.node, implicit_exc=False)
+        deadline = [n.id for n in cfg13.stmts() if isinstance(n.ast, ast.Assign) and isinstance(n.ast.value, ast.Call) and src(n.ast.value.func) == "_compute_times" and [src(a_) for a_ in n.ast.value.args] == ["timeout"]]
+        if not deadline:
+            continue
+        rederive = [n.id for n in cfg13.stmts() if isinstance(n.ast, ast.Assign) and src(n.ast.targets[0]) == "timeout" and isinstance(n.ast.value, ast.Call) and src(n.ast.value.func) in ("_timeout", "_remaining")]
+        for (nd13, c13) in calls_with_nodes(cfg13):
+            nm13 = c13.func.id if isinstance(c13.func, ast.Name) else None
+            if nm13 not in tnames13 or nm13 in ("_compute_times",):
+                continue
+            callee13 = next((g for g in model.all_functions() if g.module.name == f13.module.name and g.node.name == nm13 and g.cls is None), None) if hasattr(f13, "cls") else None
+            if callee13 is None:
+                callee13 = next((g for g in model.all_functions() if g.module.name == f13.module.name and g.node.name == nm13), None)
+            if callee13 is None or "timeout" not in callee13.params():
+                continue
+            idx13 = callee13.params().index("timeout")
+            arg13 = c13.args[idx13] if len(c13.args) > idx13 else next((k.value for k in c13.keywords if k.arg == "timeout"), None)
+            if not isinstance(arg13, ast.Name) or not cfg13.dominated_by_set(nd13.id, deadline):
+                continue
+            n13 += 1
+            fresh = [n.id for n in cfg13.stmts() if isinstance(n.ast, ast.Assign) and src(n.ast.targets[0]) == arg13.id and isinstance(n.ast.value, ast.Call) and src(n.ast.value.func) in ("_timeout", "_remaining")]
+            rep.check(bool(fresh) and cfg13.dominated_by_set(nd13.id, fresh), "R-18.13", f13.qualname, where(f13, c13), f"`{nm13}(... {arg13.id} ...)` receives the time left until the deadline",
+                      f"`{nm13}(...)` is handed `{arg13.id}`, not the time left (`_timeout(expiration)`), after the deadline was fixed and time was spent (connect, handshake): the inner exchange starts a fresh budget and a reply after the caller's deadline is returned instead of Timeout",
+                      stmt=f"remaining-time {nm13}")
+    rep.floor("R-18.13", n13, 1)
     rep.meta["explanation"] = (
         "Path-feasibility argument for 'nothing returned unchecked' (each returning path becomes infeasible when is_response is assumed false, under each value of ignore_errors), "
         "event projection and comparison of 11 sync/async twin pairs, and loop-shape rules for stream framing. Behaviour under every datagram sequence and stream split is NOT enumerated.")
 
 
 WITNESSES = [
+    {"id": "c18-async-tls-restarts-the-budget", "rule": "R-18.13", "file": "dns/asyncquery.py", "expect": "fires",
+     "old": "    async with cm as s:\n        timeout = _timeout(expiration)\n        response = await tcp(", "new": "    async with cm as s:\n        response = await tcp("},
+    {"id": "c18-twin-async-tls-remaining-local", "rule": "R-18.13", "file": "dns/asyncquery.py", "expect": "silent",
+     "old": "    async with cm as s:\n        timeout = _timeout(expiration)\n        response = await tcp(\n            q,\n            where,\n            timeout,", "new": "    async with cm as s:\n        left = _timeout(expiration)\n        response = await tcp(\n            q,\n            where,\n            left,"},
+    {"id": "c18-tls-swaps-trailing-and-one-rr", "rule": "R-18.12", "file": "dns/query.py", "expect": "fires",
+     "old": "            source_port,\n            one_rr_per_rrset,\n            ignore_trailing,\n            sock,\n        )", "new": "            source_port,\n            ignore_trailing,\n            one_rr_per_rrset,\n            sock,\n        )", "count": 1},
     {"id": "c18-async-tcp-connect-unbounded", "rule": "R-18.11", "file": "dns/asyncquery.py", "expect": "fires",
      "old": "            af, socket.SOCK_STREAM, 0, stuple, dtuple, timeout\n        )", "new": "            af, socket.SOCK_STREAM, 0, stuple, dtuple\n        )"},
     {"id": "c18-twin-async-tcp-connect-keyword", "rule": "R-18.11", "file": "dns/asyncquery.py", "expect": "silent",
